@@ -58,6 +58,8 @@ struct Stats {
     spin_room_after_full: AtomicU64,
     spin_wakeups_confirmed: AtomicU64,
     spin_flushes: AtomicU64,
+    end_flushes_ok: AtomicU64,
+    end_flushes_err: AtomicU64,
     final_flush_errors: AtomicU64,
     spin_empty_polls: AtomicU64,
     spin_data_after_empty: AtomicU64,
@@ -311,7 +313,7 @@ fn spin_reader(mut r: librqbit_utp::UtpStreamReadHalf, rkey: u64, want_r: usize,
     (r, ok)
 }
 
-async fn run_side(mut r: librqbit_utp::UtpStreamReadHalf, mut w: librqbit_utp::UtpStreamWriteHalf, seed: u64, conn: u32, side: u8, total: [usize; 2], chunk: usize, rbuf: usize, stats: Arc<Stats>, spin: bool, spin_read: bool, spin_flush: bool) -> bool {
+async fn run_side(mut r: librqbit_utp::UtpStreamReadHalf, mut w: librqbit_utp::UtpStreamWriteHalf, seed: u64, conn: u32, side: u8, total: [usize; 2], chunk: usize, rbuf: usize, stats: Arc<Stats>, spin: bool, spin_read: bool, spin_flush: bool, flush_end: bool) -> bool {
     let wkey = stream_key(seed, conn, side);
     let rkey = stream_key(seed, conn, 1 - side);
     let want_w = total[side as usize];
@@ -337,6 +339,18 @@ async fn run_side(mut r: librqbit_utp::UtpStreamReadHalf, mut w: librqbit_utp::U
                     st.errors.fetch_add(1, Ordering::Relaxed);
                     st.problem(format!("conn {conn} side {side}: write failed after {off} of {want_w}: {e}"));
                     return (w, false);
+                }
+            }
+        }
+        // C03: a flush that returns Ok says every byte written so far was acknowledged; the peer,
+        // which keeps reading, must then obtain all of them (its reader counts and checks them)
+        if flush_end {
+            match w.flush().await {
+                Ok(()) => {
+                    st.end_flushes_ok.fetch_add(1, Ordering::Relaxed);
+                }
+                Err(_) => {
+                    st.end_flushes_err.fetch_add(1, Ordering::Relaxed);
                 }
             }
         }
@@ -400,6 +414,8 @@ fn main() -> std::process::ExitCode {
     // 4 = ping: mixed buffers, the connecting side writes small messages from its own OS thread and
     //     flushes after every other one (write - wait for the ACK - write on at once)
     let profile = arg(&args, "--profile", 0);
+    // 1 = the asynchronous writers end with flush().await (C03: what a successful flush promises)
+    let flush_end = arg(&args, "--flush-end", 0) == 1;
     let out = args.iter().position(|a| a == "--out").and_then(|i| args.get(i + 1).cloned());
     let stats = Arc::new(Stats::default());
     let panicked = Arc::new(AtomicBool::new(false));
@@ -615,7 +631,7 @@ fn main() -> std::process::ExitCode {
                         let t1 = u64::from_le_bytes(hdr[8..16].try_into().unwrap()) as usize;
                         let ch = u32::from_le_bytes(hdr[16..20].try_into().unwrap()) as usize;
                         let rb = u32::from_le_bytes(hdr[20..24].try_into().unwrap()) as usize;
-                        let ok = run_side(r, w, seed, c, 1, [t0, t1], ch, rb, st3.clone(), false, profile == 3, false).await;
+                        let ok = run_side(r, w, seed, c, 1, [t0, t1], ch, rb, st3.clone(), false, profile == 3, false, flush_end).await;
                         if ok {
                             st3.conns_done.fetch_add(1, Ordering::Relaxed);
                         }
@@ -643,7 +659,7 @@ fn main() -> std::process::ExitCode {
                             st2.problem("token write failed".into());
                             return;
                         }
-                        let ok = run_side(r, w, seed, conn, 0, total, chunk, rbuf, st2.clone(), profile == 3 || profile == 4, false, profile == 4).await;
+                        let ok = run_side(r, w, seed, conn, 0, total, chunk, rbuf, st2.clone(), profile == 3 || profile == 4, false, profile == 4, flush_end).await;
                         if ok {
                             st2.conns_done.fetch_add(1, Ordering::Relaxed);
                         }
@@ -717,6 +733,8 @@ fn main() -> std::process::ExitCode {
         ("tx_snapshots_checked_for_a_sleeping_connection_task", stats.tx_snapshots_checked_dispatcher.load(Ordering::Relaxed).to_string()),
         ("snapshots_with_the_connection_task_waiting_next_to_data", stats.waiting_dispatcher_with_data.load(Ordering::Relaxed).to_string()),
  ("final_flushes_that_met_the_peers_close", stats.final_flush_errors.load(Ordering::Relaxed).to_string()),
+        ("final_flushes_ok", stats.end_flushes_ok.load(Ordering::Relaxed).to_string()),
+        ("final_flushes_err", stats.end_flushes_err.load(Ordering::Relaxed).to_string()),
         ("spin_flushes_completed", stats.spin_flushes.load(Ordering::Relaxed).to_string()),
         ("connection_tasks_ended_with_an_error", stats.deaths_with_error.load(Ordering::Relaxed).to_string()),
         ("first_connection_error", match stats.first_death.lock().clone() { Some(e) => format!("\"{}\"", e.replace('"', "'")), None => "null".to_string() }),
